@@ -366,3 +366,85 @@ Proof.
     eapply or_ty_names; [eassumption|]. apply in_app_iff in Hn as [Hn|Hn]; [left|right]; eauto.
   - rewrite eval_EAttr in Hev. apply bind_Ok_inv in Hev as [? [_ Hev]]. discriminate.
 Qed.
+
+(* ---- whatever the evaluation of a documented type raises is an Exception ------------------------------------- *)
+Definition exc (x : exn) : Prop := derives x ExceptionC = true.
+
+Lemma bind_Raise_inv : forall {A B} (m : outcome A) (f : A -> outcome B) x,
+  bind m f = Raise x -> m = Raise x \/ exists a, m = Ok a /\ f a = Raise x.
+Proof. intros A B [a|e] f x H; cbn in H; [right; eauto|left; congruence]. Qed.
+
+Ltac exc_leaf :=
+  match goal with
+  | H : Raise _ = Raise _ |- _ => inversion H; subst; reflexivity
+  | H : Ok _ = Raise _ |- _ => discriminate H
+  end.
+
+Lemma type_check_exc : forall t x, type_check t = Raise x -> exc x.
+Proof.
+  unfold type_check. intros t x H. destruct (type_convert t); try exc_leaf. destruct (is_special_form n); exc_leaf.
+Qed.
+
+Lemma type_check_all_exc : forall l x, type_check_all l = Raise x -> exc x.
+Proof.
+  induction l as [|a r IH]; cbn; intros x H; [exc_leaf|].
+  apply bind_Raise_inv in H as [H|[a' [_ H]]]; [eapply type_check_exc; eauto|].
+  apply bind_Raise_inv in H as [H|[r' [_ H]]]; [eauto|exc_leaf].
+Qed.
+
+Lemma make_union_exc : forall ps x, make_union ps = Raise x -> exc x.
+Proof.
+  unfold make_union. intros ps x H. apply bind_Raise_inv in H as [H|[ps' [_ H]]]; [eapply type_check_all_exc; eauto|].
+  destruct (forallb hashable (flatten_union ps')); [|exc_leaf].
+  destruct (dedupe [] (flatten_union ps')) as [|a [|b r]]; exc_leaf.
+Qed.
+
+Lemma subscript_exc : forall f s x, subscript f s = Raise x -> exc x.
+Proof.
+  intros f s x H. unfold subscript in H. destruct f; try exc_leaf.
+  - destruct (mem n subscriptable_builtins); exc_leaf.
+  - destruct (form_kind n) as [[k| | | |]|]; try exc_leaf.
+    + apply bind_Raise_inv in H as [H|[ps [_ H]]]; [eapply type_check_all_exc; eauto|].
+      destruct (Nat.eqb (List.length ps) k); exc_leaf.
+    + destruct (Nat.leb 2 (List.length (as_params s)) && last_is_ellipsis (as_params s));
+        (apply bind_Raise_inv in H as [H|[ps [_ H]]]; [eapply type_check_all_exc; eauto|exc_leaf]).
+    + destruct s; try exc_leaf. destruct l as [|a [|r [|? ?]]]; try exc_leaf.
+      apply bind_Raise_inv in H as [H|[r' [_ H]]]; [eapply type_check_exc; eauto|]. destruct a; exc_leaf.
+    + destruct s; try (eapply make_union_exc; eassumption). destruct l; [exc_leaf|eapply make_union_exc; eassumption].
+    + apply bind_Raise_inv in H as [H|[a [_ H]]]; [eapply type_check_exc; eauto|eapply make_union_exc; eauto].
+Qed.
+
+Lemma or_ty_exc : forall a b x, or_ty a b = Raise x -> exc x.
+Proof.
+  unfold or_ty. intros a b x H. destruct (c_unionable a && c_unionable b).
+  - assert (G : forall l : list ty, match l with [] => Ok (TPipe []) | [y] => Ok y | y :: z :: r => Ok (TPipe (y :: z :: r)) end = Raise x -> exc x).
+    { intros [|y [|z r]] G; exc_leaf. }
+    assert (G' : match dedupe [] (pipe_members a ++ pipe_members b) with
+                 | [] => Ok (TPipe []) | [y] => Ok y | y :: z :: r => Ok (TPipe (y :: z :: r)) end = Raise x \/ (a = TNone /\ b = TNone)).
+    { destruct a; try (left; exact H); destruct b; try (left; exact H); right; auto. }
+    destruct G' as [G'|[Ea Eb]]; [exact (G _ G')|subst; exc_leaf].
+  - destruct (is_typing_obj a || is_typing_obj b); [eapply make_union_exc; eauto|exc_leaf].
+Qed.
+
+Lemma evals_exc : forall c l x, Forall (fun e => forall y, eval c e = Raise y -> exc y) l -> evals c l = Raise x -> exc x.
+Proof.
+  induction l as [|a r IH]; intros x HF H; cbn [evals] in H; [exc_leaf|]. inversion HF; subst.
+  apply bind_Raise_inv in H as [H|[a' [_ H]]]; [eauto|].
+  apply bind_Raise_inv in H as [H|[r' [_ H]]]; [eauto|exc_leaf].
+Qed.
+
+Lemma eval_exc : forall c e x, eval c e = Raise x -> exc x.
+Proof.
+  intros c. induction e using texpr_ind'; intros x Hev.
+  - cbn in Hev. exc_leaf.
+  - cbn in Hev. exc_leaf.
+  - rewrite eval_EName in Hev. unfold lookup in Hev. destruct (mem n c); [exc_leaf|]. destruct (globals n); exc_leaf.
+  - rewrite eval_ESub in Hev. apply bind_Raise_inv in Hev as [Hev|[f' [_ Hev]]]; [eauto|].
+    apply bind_Raise_inv in Hev as [Hev|[s' [_ Hev]]]; [eauto|eapply subscript_exc; eauto].
+  - rewrite eval_ETuple in Hev. apply bind_Raise_inv in Hev as [Hev|[l' [_ Hev]]]; [eapply evals_exc; eauto|exc_leaf].
+  - rewrite eval_EList in Hev. apply bind_Raise_inv in Hev as [Hev|[l' [_ Hev]]]; [eapply evals_exc; eauto|exc_leaf].
+  - rewrite eval_EOr in Hev. apply bind_Raise_inv in Hev as [Hev|[a' [_ Hev]]]; [eauto|].
+    apply bind_Raise_inv in Hev as [Hev|[b' [_ Hev]]]; [eauto|eapply or_ty_exc; eauto].
+  - rewrite eval_EAttr in Hev. apply bind_Raise_inv in Hev as [Hev|[a' [_ Hev]]]; [eauto|exc_leaf].
+  - cbn in Hev. exc_leaf.
+Qed.
